@@ -1,5 +1,6 @@
 """C37 -- Bugzilla searches keep their meaning when combined, rendered and batched (DESIGN.md section 4, C37)."""
 import itertools
+import random
 import urllib.parse
 import z3
 from pyvc.api import Task, call, Interp, LoopSpec, Contract
@@ -343,13 +344,53 @@ def enum_render_and_batches(seed):
             "cases": cases, "failures": fails}
 
 
+def enum_and(seed):
+    """`a & b` on real queries built from one or two plain constraints over 3 fields and a 3-letter value alphabet (the same value under
+    different fields included), judged on every bug of the 27-bug universe: a bug satisfies a plain constraint when its field value is
+    one of the listed values"""
+    import pkgcore.bugzilla.query as Q
+    rnd = random.Random(seed + 37)
+    fields = ("bug_status", "product", "resolution")
+    alpha = ("A", "B", "C")
+    subsets = [tuple(c) for n in (1, 2) for c in itertools.permutations(alpha, n)]
+    singles = [((f, vs),) for f in fields for vs in subsets]
+    doubles = [(x[0], y[0]) for x, y in itertools.combinations(singles, 2) if x[0][0] != y[0][0]]
+    queries = singles + rnd.sample(doubles, 40)
+    bugs = [dict(zip(fields, vals)) for vals in itertools.product(alpha, repeat=3)]
+
+    def sat(simple, bug):
+        return all(bug[k] in vs for k, vs in simple)
+    fails, cases = [], 0
+    for sa, sb in itertools.product(queries, repeat=2):
+        cases += 1
+        a, b = Q.BugQuery(simple=sa), Q.BugQuery(simple=sb)
+        try:
+            r = a & b
+            rs = tuple(r.simple)
+        except Exception as e:
+            if len(fails) < 6:
+                fails.append({"model": {"a": sa, "b": sb}, "detail": f"BugQuery(simple={sa}) & BugQuery(simple={sb}) raised {type(e).__name__}: {e}"})
+            continue
+        bad = next((bug for bug in bugs if sat(rs, bug) != (sat(sa, bug) and sat(sb, bug))), None)
+        if bad is not None:
+            # KF-C37-1: the same field constrained on both sides with different value lists
+            da, db = dict(sa), dict(sb)
+            same_key = any(k in db and set(da[k]) != set(db[k]) for k in da)
+            if sum(1 for f in fails if f["model"]["same_simple_key"] == same_key) < 3:
+                fails.append({"model": {"a": sa, "b": sb, "same_simple_key": same_key},
+                              "detail": f"BugQuery(simple={sa}) & BugQuery(simple={sb}) has simple={rs}: the bug {bad} {'satisfies' if sat(rs, bad) else 'does not satisfy'} it, "
+                                        f"but {'does not satisfy' if sat(rs, bad) else 'satisfies'} both operands"})
+    return {"name": "C37.and.bounded_enumeration", "bound": f"all ordered pairs of {len(queries)} queries (every one-field constraint over 3 fields x 9 value lists of <= 2 of 3 values, 40 two-field ones), "
+            "27-bug universe", "cases": cases, "failures": fails}
+
+
 def tasks():
     return [
         Task("C37.ChartGroup.render", t_group_render, [(FILE, "ChartGroup.render")]),
         Task("C37.ChartGroup.render.head", t_group_head, [(FILE, "ChartGroup.render")]),
         Task("C37._render", t_render_dispatch, [(FILE, "_render"), (FILE, "Criterion.render")]),
         Task("C37.BugQuery.params", t_params, [(FILE, "BugQuery.params")]),
-        Task("C37.BugQuery.__and__", t_and, [(FILE, "BugQuery.__and__"), (FILE, "_merge_simple")]),
+        Task("C37.BugQuery.__and__", t_and, [(FILE, "BugQuery.__and__"), (FILE, "_merge_simple")], enumerate=enum_and),
         Task("C37.render_and_batches", None, [(FILE, "BugQuery.batches"), (FILE, "BugQuery._split_axis")], enumerate=enum_render_and_batches),
     ]
 
